@@ -92,6 +92,14 @@ pub open spec fn occ(w: Seq<WitnessId>, s: u32) -> int decreases w.len() {
     if w.len() == 0 { 0 } else { occ(w.drop_last(), s) + (if w.last().0 == s { 1int } else { 0int }) }
 }
 pub open spec fn rd(v: Seq<u32>, s: u32) -> int { if (s as int) < v.len() { v[s as int] as int } else { 0 } }
+/// the row's `out` slot is GIVEN (created earlier, a hint output, or a private input) and no earlier row created `b`: the row solves for b
+pub open spec fn given_out_unsolved_b(def: Seq<bool>, out: u32, b: u32, hints: Set<u32>, privs: Set<u32>) -> bool {
+    (((out as int) < def.len() && def[out as int]) || hints.contains(out) || privs.contains(out)) && !((b as int) < def.len() && def[b as int])
+}
+pub uninterp spec fn horner_accumulator_is_the_previous_rows_output_or_zero<F>(ops: Seq<Op<F>>, i: int) -> bool;
+pub uninterp spec fn created_by_a_coeff_lookup_row<F>(ops: Seq<Op<F>>, i: int, w: u32) -> bool;
+/// the slot a Const / Public row creates
+pub open spec fn cp_out<F>(op: Op<F>) -> Option<u32> { match op { Op::Const { out, .. } => Some(out.0), Op::Public { out, .. } => Some(out.0), _ => None } }
 pub open spec fn one_creator(c: Cnt) -> bool { forall|s: u32| 0 <= #[trigger] c(s) <= 1 }
 /// C09 third clause for one operand column: a slot that has a creator somewhere (defined earlier, an input / hint slot, or the slot this row creates through `out`) is not left off the bus
 pub open spec fn on_bus_when_created(def: Seq<bool>, w: u32, out: u32, privs: Set<u32>, hints: Set<u32>, skipped: bool) -> bool {
@@ -209,10 +217,10 @@ def build():
     g.rewrite('R6', 'let private_input_wids: hashbrown::HashSet<u32> = self.private_input_rows.iter().map(|w| w.0).collect();',
               'let mut private_input_wids: HashSet<u32> = HashSet::new(); for q_ in 0..self.private_input_rows.len() { private_input_wids.insert(self.private_input_rows[q_].0); }')
     unfilter_map_collect_set(g)
-    g.rewrite('R6', '''preprocessed.hint_output_wids = self .ops .iter() .filter_map(|op| { if let Op::Hint { outputs, .. } = op { Some(outputs.iter().map(|w| w.0)) } else { None } }) .flatten() .filter(|wid| !const_public_wids.contains(wid)) .collect();''',
-              '''let mut how_: HashSet<u32> = HashSet::new();
-        for q_ in 0..self.ops.len() { if let Op::Hint { outputs, .. } = &self.ops[q_] { for r_ in 0..outputs.len() { let wid = outputs[r_].0; if !const_public_wids.contains(&wid) { how_.insert(wid); } } } }
-        preprocessed.hint_output_wids = how_;''')
+    g.rewrite_re('R6', r'preprocessed\.hint_output_wids = self\s*\.ops\s*\.iter\(\)\s*\.filter_map\(\|op\| \{\s*if let Op::Hint \{ outputs, \.\. \} = op \{\s*Some\(outputs\.iter\(\)\.map\(\|w\| w\.0\)\)\s*\} else \{\s*None\s*\}\s*\}\)\s*\.flatten\(\)\s*\.filter\(\|wid\| !(\w+)\.contains\(wid\)\)\s*\.collect\(\);',
+                 r'''let mut how_: HashSet<u32> = HashSet::new();
+        for q_ in 0..self.ops.len() { if let Op::Hint { outputs, .. } = &self.ops[q_] { for r_ in 0..outputs.len() { let wid = outputs[r_].0; if !\1.contains(&wid) { how_.insert(wid); } } } }
+        preprocessed.hint_output_wids = how_;''', min_count=1)
     g.rewrite('R11', 'preprocessed.hint_output_wids.clone()', 'clone_u32_set(&preprocessed.hint_output_wids)')
     g.rewrite('R5', 'for op in &self.ops {', 'for oi_ in 0..self.ops.len() { let op = &self.ops[oi_];')
     unoption_filter(g)
@@ -229,14 +237,30 @@ def build():
     g.requires('realistic_sizes', 'self.ops@.len() < 0x8_0000 && forall|k: int| 0 <= k < self.ops@.len() ==> npo_out_elems(#[trigger] self.ops@[k]) < 0x1000')
     g.requires('slot_ids_are_witnesses', '''self.witness_count < 0x4000_0000
             && forall|k: int| 0 <= k < self.private_input_rows@.len() ==> (#[trigger] self.private_input_rows@[k]).0 < self.witness_count''')
+    g.ensures('no_hint_output_slot_is_also_created_by_a_const_or_public_row',
+              'ret matches Ok(p) ==> forall|k: int| 0 <= k < self.ops@.len() ==> (cp_out(#[trigger] self.ops@[k]) matches Some(w) ==> !p.hint_output_wids@.contains(w))')
     g.ensures('ext_reads_cover_all_witnesses', 'ret matches Ok(p) ==> p.ext_reads@.len() >= self.witness_count')
 
     g.after('let hint_output_wids = clone_u32_set(&preprocessed.hint_output_wids);', '''
         let ghost mut creators: Cnt = |s: u32| 0int;
         let ghost mut reads: Cnt = |s: u32| 0int;
         proof { F::distinct(); }''')
+    mcp = re.search(r'let mut (\w+): HashSet<u32> = HashSet::new\(\); for (fs\d+_) in 0\.\.self\.ops\.len\(\)', g.body)
+    mh = re.search(r'if !(\w+)\.contains\(&wid\) \{ how_\.insert\(wid\); \}', g.body)
+    if mcp and mh and mcp.group(1) == mh.group(1):
+        CPS, FS = mcp.group(1), mcp.group(2)
+        g.loop(f'for {FS} in 0..self.ops.len()', invariants=[('const_and_public_outputs_collected', f'forall|k: int| 0 <= k < {FS} ==> (cp_out(#[trigger] self.ops@[k]) matches Some(w) ==> {CPS}@.contains(w))')])
+        g.loop('for q_ in 0..self.ops.len()', invariants=[('hint_slots_exclude_const_and_public_slots', f'forall|w: u32| #[trigger] how_@.contains(w) ==> !{CPS}@.contains(w)')], nth=0)
+        g.loop('for r_ in 0..outputs.len()', invariants=[('hint_slots_exclude_const_and_public_slots', f'forall|w: u32| #[trigger] how_@.contains(w) ==> !{CPS}@.contains(w)')])
+        g.rewrite_re('SPEC', r'(preprocessed\.hint_output_wids = how_;)', f'\\1 let ghost hw0_ = how_@; let ghost cps_ = {CPS}@; proof {{ assert forall|k: int| 0 <= k < self.ops@.len() implies (cp_out(#[trigger] self.ops@[k]) matches Some(w) ==> !hw0_.contains(w)) by {{ if cp_out(self.ops@[k]) is Some {{ assert(cps_.contains(cp_out(self.ops@[k]).unwrap())); }} }} }}')
+        HINT_POST = True
+    else:
+        g.loop('for q_ in 0..self.ops.len()', invariants=[('t', 'true')], nth=0)
+        g.loop('for r_ in 0..outputs.len()', invariants=[('t', 'true')])
+        HINT_POST = False
+    HW = ' && preprocessed.hint_output_wids@ == hw0_' if HINT_POST else ''
     INV = [
-        ('shape', 'preprocessed.primitive@.len() == 3 && defined@.len() >= self.witness_count && self.witness_count < 0x4000_0000 && self.ops@.len() < 0x8_0000 && forall|k: int| 0 <= k < self.ops@.len() ==> npo_out_elems(#[trigger] self.ops@[k]) < 0x1000'),
+        ('shape', 'preprocessed.primitive@.len() == 3 && defined@.len() >= self.witness_count && self.witness_count < 0x4000_0000 && self.ops@.len() < 0x8_0000 && (forall|k: int| 0 <= k < self.ops@.len() ==> npo_out_elems(#[trigger] self.ops@[k]) < 0x1000)' + HW),
         ('budget', 'forall|s: u32| #[trigger] rd(preprocessed.ext_reads@, s) <= 0x1104 * oi_'),
         ('one_creator', 'one_creator(creators)'),
         ('defined_is_created', 'defined_is_created(defined@, creators)'),
@@ -245,8 +269,6 @@ def build():
     g.loop('for oi_ in 0..self.ops.len()', invariants=INV)
     # simple loops before the main one
     g.loop('for q_ in 0..self.private_input_rows.len()', invariants=[('t', 'true')])
-    g.loop('for q_ in 0..self.ops.len()', invariants=[('t', 'true')], nth=0)
-    g.loop('for r_ in 0..outputs.len()', invariants=[('t', 'true')])
 
     # ---- Const / Public arms: the row is a creator of `out`
     g.after('preprocessed.primitive[0usize].push(idx);', 'proof { creators = inc(creators, out.0); }')
@@ -272,6 +294,13 @@ def build():
                         assert(!(c_cr && a_cr && c_wid.0 == a.0)); // @@A:H_c_and_a_not_both_creators_of_one_slot
                         // with those excluded, the guards in the code (a/c aliased by out, defined[] tests) give one creator per slot
                         assert(one_creator(creators)); // @@A:one_creator_after_alu_row
+                        // a row whose `out` slot is GIVEN (created earlier, a hint output, or a private input) solves for `b`: b is created here unless an earlier row created it
+                        assert(given_out_unsolved_b(def0, out.0, b.0, hint_output_wids@, private_input_wids@) ==> b_cr); // @@A:a_row_with_a_given_out_slot_creates_the_operand_it_solves_for
+                        // a HornerAcc row's relation also depends on its accumulator (`intermediate_out`): no role is emitted for it -- it is bound only by row adjacency when it is the previous
+                        // step's output; a chain START from a non-zero accumulator is not (finding C09-horner-chain-start-accumulator-off-the-bus)
+                        assert(*kind is HornerAcc ==> horner_accumulator_is_the_previous_rows_output_or_zero(self.ops@, oi_ as int)); // @@A:H_horner_accumulator_operand_is_bound
+                        // a hint output that a recompose/coeff row also creates must not take the creator role here (the NPO arm marks only the op's OUTPUTS as defined): finding C09-hint-coefficient-created-twice
+                        assert(a_cr && hint_output_wids@.contains(a.0) ==> !created_by_a_coeff_lookup_row(self.ops@, oi_ as int, a.0)); // @@A:H_a_hint_slot_created_here_is_not_also_created_by_a_recompose_coeff_row
                         // C09, third clause: an operand of the row's relation takes part in the bus whenever its slot has a creator at all --
                         // an earlier row, an input / hint slot at its first use, or this very row through `out`  (b and out always carry a role)
                         assert(on_bus_when_created(def0, a.0, out.0, private_input_wids@, hint_output_wids@, a_state == F::fzero())); // @@A:operand_a_takes_part_in_the_witness_bus
@@ -303,7 +332,7 @@ def build():
                         assert forall|s: u32| #[trigger] rd(er, s) <= 0x1104 * oi_ + 0x100 by { assert(rd(er0, s) <= 0x1104 * oi_); } }
                     let ghost mut added: int = 0; let ghost mut seen: int = 0;
                     proof { assert(outputs@.take(0) =~= Seq::<Vec<WitnessId>>::empty()); assert(npo_out_elems(self.ops@[oi_ as int]) < 0x1000); }''')
-    NPO = 'preprocessed.primitive@.len() == 3 && defined@.len() >= self.witness_count && one_creator(creators) && defined_is_created(defined@, creators) && reads_match(preprocessed.ext_reads@, reads) && oi_ < self.ops@.len() && total_len(outputs@) < 0x1000 && self.ops@.len() < 0x8_0000'
+    NPO = ('preprocessed.hint_output_wids@ == hw0_ && ' if HINT_POST else '') + 'preprocessed.primitive@.len() == 3 && defined@.len() >= self.witness_count && one_creator(creators) && defined_is_created(defined@, creators) && reads_match(preprocessed.ext_reads@, reads) && oi_ < self.ops@.len() && total_len(outputs@) < 0x1000 && self.ops@.len() < 0x8_0000'
     g.loop('for ol_ in 0..', invariants=[
         ('state', NPO),
         ('seen', 'ol_ <= outputs@.len() && seen == total_len(outputs@.take(ol_ as int)) && 0 <= added <= seen'),
